@@ -7,7 +7,7 @@
 (* ====================================================================== *)
 Require Import String.
 Require Import Arith Lia List Bool ZArith QArith Qcanon.
-From TK Require Import Mat_Sums Mat_Core Mat_Qc Proj_Model Proj_Spec Proj_Proof Proj_Proof_Range Proj_Proof_Offset Proj_Table Proj Proj_Tie.
+From TK Require Import Mat_Sums Mat_Core Mat_Qc Proj_Model Proj_Spec Proj_Proof Proj_Proof_Range Proj_Proof_Offset Proj_Proof_Pure Proj_Table Proj Proj_Tie.
 Import ListNotations.
 Local Open Scope nat_scope.
 
@@ -468,3 +468,59 @@ Theorem C07_offset_needs_output_relative_tolerance :
   is_projection_rel_b 1 1 ow_eps ow_P ow_m ow_x [qz 1] = Some true.
 Proof. exact offset_needs_output_relative_tolerance. Qed.
 Print Assumptions C07_offset_needs_output_relative_tolerance.
+
+(* ---------------------------------------------------------------------------------------------------- *)
+(* Wave 4 — "so it can be applied to unseen vectors consistently": the returned function is a FUNCTION   *)
+(* of its argument.  All copies of a ProjectingFunction / TapkeeOutput share one implementation object   *)
+(* through a shared_ptr; an application may apply them from several threads at once.                     *)
+
+(* 18. (over the table regenerated from projection.hpp on every run) MatrixProjectionImplementation::project
+       writes no member, declares no static / thread_local, the struct has no mutable / static data member, the
+       file no static object; one return; the argument is taken by const reference *)
+Theorem C07_project_writes_nothing :
+  mp_nonlocal_writes mpi_purity = [] /\ mp_static_decls mpi_purity = 0 /\ mp_mutable_members mpi_purity = 0 /\
+  mp_file_statics mpi_purity = 0 /\ mp_nreturns mpi_purity = 1 /\ mp_param mpi_purity = "constDenseVector&vec"%string.
+Proof. exact mpi_project_writes_nothing. Qed.
+Print Assumptions C07_project_writes_nothing.
+
+(* 19. non-interference, any state types: calls none of whose steps writes the shared object leave it as it is under
+       EVERY interleaving, and every call ends exactly as it ends running alone *)
+Theorem C07_readonly_calls_do_not_interfere :
+  forall (S L : Type) (sched : list nat) (s : S) (ts : list (thread S L)),
+    Forall (readonly_thread S L) ts ->
+    fst (run sched s ts) = s /\
+    forall i t, nth_error ts i = Some t ->
+      nth_error (snd (run sched s ts)) i = Some (snd (run_alone (count_occ Nat.eq_dec sched i) s t)).
+Proof. exact readonly_calls_do_not_interfere. Qed.
+Print Assumptions C07_readonly_calls_do_not_interfere.
+
+(* 20. the shipped call (one step, reads proj_mat / mean_vec, writes nothing): any number of calls on one shared
+       object, any interleaving: the object is unchanged and every call that got its step returns P^T (x - m) *)
+Theorem C07_project_is_a_function_under_interleaving :
+  forall (F : Type) (Fo : FieldOps F) D d (o : mpi_object F) (xs : list (list F)) (sched : list nat),
+    fst (run sched o (map (call_of (shipped_call D d)) xs)) = o /\
+    forall i x, nth_error xs i = Some x -> count_occ Nat.eq_dec sched i >= 1 ->
+      exists t, nth_error (snd (run sched o (map (call_of (shipped_call D d)) xs))) i = Some t /\
+        cl_result (t_loc t) = Some (ptrans_mul D d (ob_P o) (zip_sub x (ob_m o))).
+Proof. exact @shipped_calls_any_interleaving. Qed.
+Print Assumptions C07_project_is_a_function_under_interleaving.
+
+Example C07_interleaving_nonvacuous :
+  exists t, nth_error (snd (run [1; 0] bw_obj (map (call_of (shipped_call 1 1)) [bw_x0; bw_x1]))) 0 = Some t /\
+    cl_result (t_loc t) = Some [Q2Qc 1].
+Proof. eexists. split; [reflexivity|]. vm_compute. reflexivity. Qed.
+
+(* 21. regression theorem for the rewrite that keeps `vec - mean_vec` in a preallocated MEMBER buffer (not the shipped
+       code): alone it returns the same value (buffered_call_alone), but two overlapping calls interfere: under the
+       schedule write_0 write_1 read_0 read_1 call 0 returns the image of call 1's vector *)
+Theorem C07_buffered_project_refuted :
+  (forall (F : Type) (Fo : FieldOps F) D d (o : mpi_object F) x,
+     cl_result (t_loc (snd (run_alone 2 o (call_of (buffered_call D d) x)))) =
+       Some (ptrans_mul D d (ob_P o) (zip_sub x (ob_m o)))) /\
+  exists t0,
+    nth_error (snd (run [0; 1; 0; 1] bw_obj (map (call_of (buffered_call 1 1)) [bw_x0; bw_x1]))) 0 = Some t0 /\
+    cl_result (t_loc t0) = Some [Q2Qc 2] /\
+    cl_result (t_loc (snd (run_alone 2 bw_obj (call_of (buffered_call 1 1) bw_x0)))) = Some [Q2Qc 1] /\
+    [Q2Qc 2] <> [Q2Qc 1].
+Proof. split; [exact @buffered_call_alone|exact buffered_calls_interfere_refuted]. Qed.
+Print Assumptions C07_buffered_project_refuted.
